@@ -78,6 +78,10 @@ def strategy_(draw, tier):
             ops.append(["setmany", obj, draw(st.integers(10, 14)), draw(st.sampled_from(["int16", "char8", "float64"]))])
         elif c < 65:
             ops.append(["dimname", draw(st.integers(0, 1)), draw(st.sampled_from(["dx", "dy", "shared", "shared", "latitude", "lat", "la"]))])   # incl. names that are prefixes of one another
+            rel = {"latitude": ["lat", "la"], "lat": ["la", "latitude"], "la": ["lat", "latitude"]}
+            if ops[-1][2] in rel and draw(st.booleans()):
+                # the other dimension gets a name related by prefix (shorter or longer)
+                ops.append(["dimname", 1 - ops[-1][1], draw(st.sampled_from(rel[ops[-1][2]]))])
         elif c < 70:
             ops.append(["dimscale", draw(st.integers(0, 1)), draw(st.sampled_from(["int32", "float32", "uint8", "uint32", "int8", "int16", "uint16"])),
                         draw(st.integers(0, 99))])
@@ -246,6 +250,13 @@ def run_case(case):
             S("nofail", p.call("i", "VSattach", V("f"), V("vsref"), "w" if rw else "r", bind="vs"), "VSattach")
             S("nofail", p.call("i", "Vattach", V("f"), V("vgref"), "w" if rw else "r", bind="vg"), "Vattach")
 
+        def recheck_dims():
+            # after a reopen every named dimension must still carry its name, and every scale its values
+            for di_ in (0, 1):
+                if dimnames[di_] is not None:
+                    S("diminfo", p.call("i", "SDdiminfo", V("d%d" % di_), OutS(300), Out(4), Out(4), Out(4)), di_)
+                S("getscale", p.call("i", "SDgetdimscale", V("d%d" % di_), Out(4 * 8)), di_)
+
         for op in case["ops"]:
             k = op[0]
             if k == "set":
@@ -387,6 +398,7 @@ def run_case(case):
                 open_all(mode != "ro")
                 writable = mode != "ro"
                 S("reopened", None)
+                recheck_dims()
                 if mode == "rw_add":
                     nadd += 1
                     S("nofail", p.call("i", "SDcreate", V("sd"), "extra%d" % nadd, 22, 1, i32s(2), bind="sx"),
@@ -412,6 +424,7 @@ def run_case(case):
         close_all()
         open_all(False)
         S("reopened", None)
+        recheck_dims()
         for o in OBJS:
             check_object(o)
         close_all()
